@@ -177,6 +177,17 @@ pub fn sugg_corpus(on: bool) -> CorpusSpec {
     }
 }
 
+pub fn clash_corpus() -> CorpusSpec {
+    CorpusSpec {
+        name: "clash".into(),
+        programs_expr: "vmodel::corpus::clash_corpus()".into(),
+        programs: vmodel::corpus::clash_corpus(),
+        shards: 8,
+        main_call: "vrt::explore::main(entries);".into(),
+        suggestions: true,
+    }
+}
+
 pub fn all_specs(tier: Tier) -> Vec<CorpusSpec> {
     vec![struct_corpus(tier), enum_corpus(tier), attr_corpus(tier)]
 }
